@@ -32,7 +32,7 @@ package expire
 //@   ensures stamps_now: result.0 == false && result.1 == nil && emits Sess.Put("last_action", ?v) :: before Now() -> ?n :: v == time_format(n, "2006-01-02T15:04:05Z07:00")
 //@
 //@ func (expireMiddleware).ServeHTTP
-//@   property C09
+//@   property C09 C01 C02 C12 C13 C14
 //@   requires m.expireAfter >= 0
 //@   invariant loop#1 whitelist_subset: forall k string :: maphas(whitelist, k) ==> (exists j int :: 0 <= j && j < len(m.sessionWhitelist) && elem(m.sessionWhitelist, j) == k)
 //@   -- an expired session: delete all but the whitelist plus the identity keys, and hide
@@ -53,7 +53,10 @@ package expire
 //@   ensures next_always_runs: !panics ==> emits Next.ServeHTTP(_, _, _)
 //@
 //@ func (stateHider).Get
-//@   property C09
+//@   property C09 C01 C02 C12 C13 C14
+//@   -- (C01/C02/C12/C13/C14: the handlers below an expired session decide on session keys -
+//@   -- pending logins, 2FA secrets, the OAuth2 state - and must not see them, nor see a key
+//@   -- as present that the session does not hold)
 //@   -- a hidden session only ever reveals whitelisted keys
 //@   ensures hides: result.1 ==> maphas(k.whitelist, s)
 //
